@@ -3,6 +3,8 @@
 -/
 import PgVerif.Model.Relmap
 import PgVerif.Spec.Relmap
+import PgVerif.Proofs.Crc
+import PgVerif.Proofs.ControlTotal
 namespace PgVerif.Proofs
 open PgVerif PgVerif.Spec
 
@@ -37,6 +39,25 @@ theorem relMapLoop_enc (ms : List (Nat × Nat)) (pre rest : Bytes) (off : Nat) (
     rw [this]
     rfl
 
+/-- the loop returns at most the requested number of mappings -/
+theorem relMapLoop_length (bs : Bytes) (n off : Nat) (ms : List Model.RelMapping) (h : Model.relMapLoop bs n off = .ok ms) :
+    ms.length ≤ n := by
+  induction n generalizing off ms with
+  | zero => unfold Model.relMapLoop at h; cases h; simp
+  | succ n ih =>
+    unfold Model.relMapLoop at h
+    by_cases hg : off + 8 > bs.length
+    · rw [if_pos hg] at h; cases h; simp
+    · rw [if_neg hg] at h
+      simp (disch := omega) only [uN_ok, ok_bind, pure_eq_ok] at h
+      cases hr : Model.relMapLoop bs n (off + 8) with
+      | error e => simp [hr] at h
+      | ok rest =>
+        simp only [hr, ok_bind] at h
+        cases h
+        have := ih (off + 8) rest hr
+        simp; omega
+
 theorem toSigned32_small (n : Nat) (h : n < 2 ^ 31) : toSigned 32 n = (n : Int) := by
   unfold toSigned
   rw [if_pos (by simpa using h)]
@@ -56,12 +77,58 @@ theorem encRelMapRaw_length16 (magic count : Nat) (m : RelMap) (h : m.WF16) : (e
   obtain ⟨h1, h2, _, h4, _⟩ := h
   rw [encRelMapRaw_length_core relmapMax16 0 magic count m h1 h2 h4]; rfl
 
-/-- ParseRelMapFile on an encoded map with `mx` slots followed by `tail`, when the file size selects `mx` -/
+/-! ### relMapIsV16 in terms of the Spec's crc check -/
+
+theorem crcOk16_eq (bs : Bytes) (h : 524 ≤ bs.length) :
+    relmapCrcOk .v16 bs = (rd 4 (bs.drop 520) == crc32c (bs.take 520)) := by
+  have hs : RelMapLayout.v16.size = 524 := by decide
+  have ho : RelMapLayout.v16.crcOffset = 520 := by decide
+  unfold relmapCrcOk relmapBody rdAt
+  rw [hs, ho, decide_eq_true h, Bool.true_and]
+
+theorem crcOk12_eq (bs : Bytes) (h : 512 ≤ bs.length) :
+    relmapCrcOk .v12 bs = (rd 4 (bs.drop 504) == crc32c (bs.take 504)) := by
+  have hs : RelMapLayout.v12.size = 512 := by decide
+  have ho : RelMapLayout.v12.crcOffset = 504 := by decide
+  unfold relmapCrcOk relmapBody rdAt
+  rw [hs, ho, decide_eq_true h, Bool.true_and]
+
+/-- what relMapIsV16 answers, for every byte string and count: "16" iff the 16 struct fits and (the count exceeds 62, or
+the image verifies as a 16 map, or it verifies as neither and is exactly 524 bytes long) -/
+def isV16Of (bs : Bytes) (n : Int) : Bool :=
+  decide (524 ≤ bs.length) && (decide (n > 62) || relmapCrcOk .v16 bs || (!relmapCrcOk .v12 bs && bs.length == 524))
+
+theorem relMapIsV16_eq (bs : Bytes) (n : Int) : Model.relMapIsV16 bs n = .ok (isV16Of bs n) := by
+  unfold Model.relMapIsV16 isV16Of
+  by_cases hl : bs.length < 524
+  · rw [if_pos hl, decide_eq_false (by omega), Bool.false_and]; rfl
+  · rw [if_neg hl, decide_eq_true (by omega), Bool.true_and]
+    by_cases hn : n > 62
+    · rw [if_pos hn, decide_eq_true hn]; rfl
+    · rw [if_neg hn, decide_eq_false hn, Bool.false_or]
+      simp (disch := omega) only [slice_ok, uN_ok, ok_bind, pure_eq_ok, List.drop_zero]
+      rw [verifyCRC32C_eq, verifyCRC32C_eq, ← crcOk16_eq bs (by omega), ← crcOk12_eq bs (by omega)]
+      cases relmapCrcOk .v16 bs
+      · cases relmapCrcOk .v12 bs <;> simp
+      · simp
+
+theorem isV16Of_len (bs : Bytes) (n : Int) (h : isV16Of bs n = true) : 524 ≤ bs.length := by
+  unfold isV16Of at h
+  simp only [Bool.and_eq_true, decide_eq_true_eq] at h
+  exact h.1
+
+theorem isV16Of_count (bs : Bytes) (n : Int) (h : isV16Of bs n = false) (hl : 524 ≤ bs.length) : n ≤ 62 := by
+  unfold isV16Of at h
+  rw [decide_eq_true hl, Bool.true_and] at h
+  simp only [Bool.or_eq_false_iff, decide_eq_false_iff_not] at h
+  omega
+
+/-- ParseRelMapFile on an encoded map with `mx` slots followed by `tail`, when relMapIsV16 selects `mx` -/
 theorem parseRelMapFile_enc_core (mx padLen : Nat) (m : RelMap) (h1 : m.mappings.length ≤ mx)
     (h2 : m.unused.length = 8 * (mx - m.mappings.length)) (h3 : m.crc < 2 ^ 32) (h4 : m.pad.length = padLen)
     (h5 : ∀ e ∈ m.mappings, e.1 < 2 ^ 32 ∧ e.2 < 2 ^ 32) (tail : Bytes) (hmx : 62 ≤ mx ∧ mx ≤ 64)
     (hsz : 512 ≤ 8 + 8 * mx + 4 + padLen)
-    (hsel : (if 8 + 8 * mx + 4 + padLen + tail.length = 524 then 64 else 62) = mx) :
+    (hsel : (if isV16Of (encRelMap m ++ tail) (m.mappings.length : Int) then 64 else 62) = mx) :
     Model.parseRelMapFile (encRelMap m ++ tail) =
       .ok (some { magic := relmapMagic, numMappings := m.mappings.length, mappings := m.mappings.map toMapping, crc := m.crc }) := by
   have hlen := encRelMapRaw_length_core mx padLen relmapMagic m.mappings.length m h1 h2 h4
@@ -89,83 +156,304 @@ theorem parseRelMapFile_enc_core (mx padLen : Nat) (m : RelMap) (h1 : m.mappings
       (by simp) h5
     simpa [List.append_assoc] using this
   rw [r0, r4]
-  rw [if_neg (by simp [relmapMagic]), toSigned32_small _ (by omega)]
-  rw [hl, hsel]
-  rw [if_neg (by omega)]
-  simp only [Int.toNat_natCast, hloop, ok_bind]
-  rw [if_pos (by omega)]
+  rw [if_neg (by simp [relmapMagic]), toSigned32_small _ (by omega), relMapIsV16_eq]
   simp only [ok_bind]
+  cases hv : isV16Of (encRelMap m ++ tail) (m.mappings.length : Int) with
+  | true =>
+    have hlen524 := isV16Of_len _ _ hv
+    rw [hv] at hsel
+    have hmx64 : mx = 64 := by simpa using hsel.symm
+    subst hmx64
+    simp only [if_true]
+    rw [if_neg (by omega)]
+    simp only [Int.toNat_natCast, hloop, ok_bind]
+    rw [uN_ok _ _ _ (by omega)]
+    simp only [ok_bind]
+    rw [show (520 : Nat) = 8 + 64 * 8 from rfl, rcrc]
+  | false =>
+    rw [hv] at hsel
+    have hmx62 : mx = 62 := by simpa using hsel.symm
+    subst hmx62
+    simp only [Bool.false_eq_true, if_false]
+    rw [if_neg (by omega)]
+    simp only [Int.toNat_natCast, hloop, ok_bind]
+    rw [show (504 : Nat) = 8 + 62 * 8 from rfl, rcrc]
+
+/-- the image of a 12–15 map followed by `tail`: where its two crc candidates are -/
+theorem enc12_crcOk12 (m : RelMap) (h : m.WF) (tail : Bytes) :
+    relmapCrcOk .v12 (encRelMap m ++ tail) = (m.crc == crc32c (relmapBody .v12 (encRelMap m))) := by
+  obtain ⟨h1, h2, h3, h4, _⟩ := h
+  have hlen := encRelMapRaw_length_core relmapMax 4 relmapMagic m.mappings.length m h1 h2 h4
+  have hl : (encRelMap m).length = 512 := by simpa [encRelMap, relmapMax] using hlen
+  rw [crcOk12_eq _ (by simp [hl])]
+  have ho : RelMapLayout.v12.crcOffset = 504 := by decide
+  unfold relmapBody
+  rw [ho, List.take_append_of_le_length (by omega)]
+  have rcrc : rd 4 (List.drop 504 (encRelMap m ++ tail)) = m.crc := by
+    have e : encRelMap m ++ tail = (le 4 relmapMagic ++ (le 4 m.mappings.length ++ (m.mappings.flatMap encMapping ++ m.unused))) ++
+        (le 4 m.crc ++ (m.pad ++ tail)) := by
+      simp [encRelMap, encRelMapRaw, List.append_assoc]
+    rw [e]
+    have := rdAt_append' 4 m.crc 504 (le 4 relmapMagic ++ (le 4 m.mappings.length ++ (m.mappings.flatMap encMapping ++ m.unused)))
+      (m.pad ++ tail) (by simp [-List.length_flatMap, flatMap_encMapping_length, h2, relmapMax]; unfold relmapMax at h1; omega) h3
+    simpa [rdAt] using this
   rw [rcrc]
 
-/-- ParseRelMapFile on an encoded PostgreSQL 12–15 map followed by anything that does not make the file 524 bytes long -/
-theorem parseRelMapFile_enc (m : RelMap) (h : m.WF) (tail : Bytes) (ht : tail.length ≠ 12) :
+/-- the image of a 16 map followed by `tail` -/
+theorem enc16_crcOk16 (m : RelMap) (h : m.WF16) (tail : Bytes) :
+    relmapCrcOk .v16 (encRelMap m ++ tail) = (m.crc == crc32c (relmapBody .v16 (encRelMap m))) := by
+  obtain ⟨h1, h2, h3, h4, _⟩ := h
+  have hlen := encRelMapRaw_length_core relmapMax16 0 relmapMagic m.mappings.length m h1 h2 h4
+  have hl : (encRelMap m).length = 524 := by simpa [encRelMap, relmapMax16] using hlen
+  rw [crcOk16_eq _ (by simp [hl])]
+  have ho : RelMapLayout.v16.crcOffset = 520 := by decide
+  unfold relmapBody
+  rw [ho, List.take_append_of_le_length (by omega)]
+  have rcrc : rd 4 (List.drop 520 (encRelMap m ++ tail)) = m.crc := by
+    have e : encRelMap m ++ tail = (le 4 relmapMagic ++ (le 4 m.mappings.length ++ (m.mappings.flatMap encMapping ++ m.unused))) ++
+        (le 4 m.crc ++ (m.pad ++ tail)) := by
+      simp [encRelMap, encRelMapRaw, List.append_assoc]
+    rw [e]
+    have := rdAt_append' 4 m.crc 520 (le 4 relmapMagic ++ (le 4 m.mappings.length ++ (m.mappings.flatMap encMapping ++ m.unused)))
+      (m.pad ++ tail) (by simp [-List.length_flatMap, flatMap_encMapping_length, h2, relmapMax16]; unfold relmapMax16 at h1; omega) h3
+    simpa [rdAt] using this
+  rw [rcrc]
+
+theorem enc12_length (m : RelMap) (h : m.WF) (tail : Bytes) : (encRelMap m ++ tail).length = 512 + tail.length := by
+  simp [encRelMap, encRelMapRaw_length relmapMagic m.mappings.length m h]
+
+theorem enc16_length (m : RelMap) (h : m.WF16) (tail : Bytes) : (encRelMap m ++ tail).length = 524 + tail.length := by
+  simp [encRelMap, encRelMapRaw_length16 relmapMagic m.mappings.length m h]
+
+/-- ParseRelMapFile on an encoded PostgreSQL 12–15 map followed by `tail`, whenever relMapIsV16 answers "12–15" -/
+theorem parseRelMapFile_enc (m : RelMap) (h : m.WF) (tail : Bytes)
+    (hv : isV16Of (encRelMap m ++ tail) (m.mappings.length : Int) = false) :
     Model.parseRelMapFile (encRelMap m ++ tail) =
       .ok (some { magic := relmapMagic, numMappings := m.mappings.length, mappings := m.mappings.map toMapping, crc := m.crc }) := by
   obtain ⟨h1, h2, h3, h4, h5⟩ := h
-  exact parseRelMapFile_enc_core relmapMax 4 m h1 h2 h3 h4 h5 tail (by decide) (by decide)
-    (by unfold relmapMax; rw [if_neg (by omega)])
+  exact parseRelMapFile_enc_core relmapMax 4 m h1 h2 h3 h4 h5 tail (by decide) (by decide) (by rw [hv]; rfl)
 
-/-- ParseRelMapFile on an encoded PostgreSQL 16 map (exactly 524 bytes) -/
-theorem parseRelMapFile_enc16 (m : RelMap) (h : m.WF16) :
-    Model.parseRelMapFile (encRelMap m) =
+/-- ParseRelMapFile on an encoded PostgreSQL 16 map followed by `tail`, whenever relMapIsV16 answers "16" -/
+theorem parseRelMapFile_enc16 (m : RelMap) (h : m.WF16) (tail : Bytes)
+    (hv : isV16Of (encRelMap m ++ tail) (m.mappings.length : Int) = true) :
+    Model.parseRelMapFile (encRelMap m ++ tail) =
       .ok (some { magic := relmapMagic, numMappings := m.mappings.length, mappings := m.mappings.map toMapping, crc := m.crc }) := by
   obtain ⟨h1, h2, h3, h4, h5⟩ := h
-  have := parseRelMapFile_enc_core relmapMax16 0 m h1 h2 h3 h4 h5 [] (by decide) (by decide) (by unfold relmapMax16; rfl)
-  simpa using this
+  exact parseRelMapFile_enc_core relmapMax16 0 m h1 h2 h3 h4 h5 tail (by decide) (by decide) (by rw [hv]; rfl)
 
-/-- the largest count ParseRelMapFile accepts in a file of `n` bytes: 64 in a 524-byte file (PostgreSQL 16), 62 otherwise -/
-def maxCountFor (n : Nat) : Nat := if n = 524 then 64 else 62
+/-- a 12–15 image is read as such when it does not verify as a 16 image and (it is intact, or it is not exactly 524 bytes long) -/
+theorem isV16Of_enc12 (m : RelMap) (h : m.WF) (tail : Bytes)
+    (h16 : relmapCrcOk .v16 (encRelMap m ++ tail) = false) (hor : m.Intact .v12 ∨ tail.length ≠ 12) :
+    isV16Of (encRelMap m ++ tail) (m.mappings.length : Int) = false := by
+  have hn : ¬ ((m.mappings.length : Int) > 62) := by have := h.1; unfold relmapMax at this; omega
+  unfold isV16Of
+  rw [decide_eq_false hn, h16, Bool.false_or, Bool.false_or, enc12_crcOk12 m h tail, enc12_length m h tail]
+  rcases hor with hi | ht
+  · unfold RelMap.Intact at hi
+    rw [← hi]; simp
+  · have : (512 + tail.length == 524) = false := by simp; omega
+    rw [this]; simp
 
-/-- rejection, for every byte string: too short, wrong magic or a count outside 0..max give the error result -/
-theorem parseRelMapFile_reject (bs : Bytes)
-    (h : bs.length < 512 ∨ rdAt 4 0 bs ≠ 0x592717 ∨ toSigned 32 (rdAt 4 4 bs) < 0 ∨
-      toSigned 32 (rdAt 4 4 bs) > maxCountFor bs.length) :
-    Model.parseRelMapFile bs = .ok none := by
-  unfold Model.parseRelMapFile
+/-- … in particular with fewer than 12 trailing bytes -/
+theorem isV16Of_enc12_short (m : RelMap) (h : m.WF) (tail : Bytes) (ht : tail.length < 12) :
+    isV16Of (encRelMap m ++ tail) (m.mappings.length : Int) = false := by
+  unfold isV16Of
+  rw [enc12_length m h tail, decide_eq_false (by omega), Bool.false_and]
+
+/-- a 16 image is read as such when it is intact, or holds more than 62 mappings, or (has no tail and does not verify
+as a 12–15 image) -/
+theorem isV16Of_enc16 (m : RelMap) (h : m.WF16) (tail : Bytes)
+    (hor : m.Intact .v16 ∨ m.mappings.length > 62 ∨ (tail = [] ∧ relmapCrcOk .v12 (encRelMap m ++ tail) = false)) :
+    isV16Of (encRelMap m ++ tail) (m.mappings.length : Int) = true := by
+  unfold isV16Of
+  rw [enc16_length m h tail, decide_eq_true (by omega), Bool.true_and, enc16_crcOk16 m h tail]
+  rcases hor with hi | hn | ⟨ht, h12⟩
+  · unfold RelMap.Intact at hi
+    rw [← hi]; simp
+  · have : decide ((m.mappings.length : Int) > 62) = true := decide_eq_true (by omega)
+    rw [this]; simp
+  · rw [h12, ht]; simp
+
+/-! ### the two layouts overlap -/
+
+theorem le_rd (n : Nat) (bs : Bytes) (h : n ≤ bs.length) : le n (rd n bs) = bs.take n := by
+  induction n generalizing bs with
+  | zero => rfl
+  | succ n ih =>
+    cases bs with
+    | nil => simp at h
+    | cons b t =>
+      have hb := b.toNat_lt
+      simp only [rd, le, List.take_succ_cons]
+      have h1 : (b.toNat + 256 * rd n t) % 256 = b.toNat := by omega
+      have h2 : (b.toNat + 256 * rd n t) / 256 = rd n t := by omega
+      rw [h1, h2, ih t (by simpa using h)]
+      congr 1
+      exact UInt8.ofNat_toNat
+
+/-- the PostgreSQL 16 map that the image of the 12–15 map `m` followed by `tail` (≥ 12 bytes) is, member by member: the
+same mappings; unused slots = the old unused slots, then the old crc and padding (slot 62) and the next 8 bytes (slot 63);
+crc = the four bytes at 520 -/
+def as16 (m : RelMap) (tail : Bytes) : RelMap :=
+  { mappings := m.mappings, unused := m.unused ++ (le 4 m.crc ++ (m.pad ++ tail.take 8)), crc := rd 4 (tail.drop 8), pad := [] }
+
+theorem as16_wf (m : RelMap) (h : m.WF) (tail : Bytes) (ht : 12 ≤ tail.length) : (as16 m tail).WF16 := by
+  obtain ⟨h1, h2, _, h4, h5⟩ := h
+  unfold relmapMax at h1 h2
+  refine ⟨?_, ?_, ?_, rfl, h5⟩
+  · show m.mappings.length ≤ relmapMax16
+    unfold relmapMax16; omega
+  · show (m.unused ++ (le 4 m.crc ++ (m.pad ++ tail.take 8))).length = 8 * (relmapMax16 - m.mappings.length)
+    unfold relmapMax16
+    simp only [List.length_append, le_length, List.length_take, h2, h4]
+    omega
+  · exact rd_lt 4 _
+
+theorem as16_enc (m : RelMap) (tail : Bytes) (ht : 12 ≤ tail.length) :
+    encRelMap m ++ tail = encRelMap (as16 m tail) ++ tail.drop 12 := by
+  have hsplit : tail = tail.take 8 ++ (le 4 (rd 4 (tail.drop 8)) ++ tail.drop 12) := by
+    rw [le_rd 4 (tail.drop 8) (by simp; omega)]
+    have : tail.drop 12 = (tail.drop 8).drop 4 := by simp
+    rw [this, List.take_append_drop, List.take_append_drop]
+  conv => lhs; rw [hsplit]
+  simp [encRelMap, encRelMapRaw, as16, List.append_assoc]
+
+theorem crc32c_lt (bs : Bytes) : crc32c bs < 256 ^ 4 := by
+  unfold crc32c
+  have := (crcFeed 0xFFFFFFFF#32 bs ^^^ 0xFFFFFFFF#32).isLt
+  have e : (256 : Nat) ^ 4 = 2 ^ 32 := by decide
+  omega
+
+/-- an intact 12–15 map followed by any 8 bytes and the CRC-32C of everything so far verifies under BOTH layouts -/
+theorem collision_both (m : RelMap) (h : m.WF) (hi : m.Intact .v12) (t8 : Bytes) (h8 : t8.length = 8) :
+    relmapCrcOk .v12 (encRelMap m ++ (t8 ++ le 4 (crc32c (encRelMap m ++ t8)))) = true ∧
+    relmapCrcOk .v16 (encRelMap m ++ (t8 ++ le 4 (crc32c (encRelMap m ++ t8)))) = true := by
+  constructor
+  · rw [enc12_crcOk12 m h]
+    unfold RelMap.Intact at hi
+    rw [← hi]; simp
+  · have hl := enc12_length m h []
+    simp only [List.append_nil, List.length_nil, Nat.add_zero] at hl
+    rw [crcOk16_eq _ (by simp [hl, h8])]
+    have e : encRelMap m ++ (t8 ++ le 4 (crc32c (encRelMap m ++ t8))) = (encRelMap m ++ t8) ++ (le 4 (crc32c (encRelMap m ++ t8)) ++ []) := by
+      simp [List.append_assoc]
+    rw [e, List.take_left' (by simp [hl, h8]), List.drop_left' (by simp [hl, h8])]
+    rw [rd_le 4 _ [] (crc32c_lt _)]
+    simp
+
+/-! ### acceptance -/
+
+/-- the count test of ParseRelMapFile is the Spec's `relmapCountOk` -/
+theorem count_guard_iff (len : Nat) (n : Int) (v : Bool) (hl : 512 ≤ len) (hv1 : v = true → 524 ≤ len)
+    (hv2 : v = false → 524 ≤ len → n ≤ 62) :
+    ¬ (n < 0 ∨ n > ((if v = true then 64 else 62 : Nat) : Int)) ↔ relmapCountOk len n := by
+  have s12 : RelMapLayout.v12.size = 512 := by decide
+  have s16 : RelMapLayout.v16.size = 524 := by decide
+  have m12 : RelMapLayout.v12.maxMappings = 62 := rfl
+  have m16 : RelMapLayout.v16.maxMappings = 64 := rfl
+  unfold relmapCountOk relmapCountFits
+  rw [s12, s16, m12, m16]
+  cases v with
+  | true =>
+    have := hv1 rfl
+    simp only [if_true]
+    omega
+  | false =>
+    simp only [Bool.false_eq_true, if_false]
+    by_cases h524 : 524 ≤ len
+    · have := hv2 rfl h524
+      omega
+    · omega
+
+/-- **Acceptance, for every byte string**: ParseRelMapFile returns a map iff the image has at least 512 bytes, the magic,
+and a possible count (`Spec.relmapCountOk`: 0..62, or 0..64 when the 524-byte struct fits) -/
+theorem parseRelMapFile_accept_iff (bs : Bytes) :
+    (∃ rm, Model.parseRelMapFile bs = .ok (some rm)) ↔
+      512 ≤ bs.length ∧ rdAt 4 0 bs = 0x592717 ∧ relmapCountOk bs.length (toSigned 32 (rdAt 4 4 bs)) := by
+  unfold Model.parseRelMapFile rdAt
   by_cases hl : bs.length < 512
-  · simp [hl]
-  · simp (disch := omega) only [hl, if_false, uN_ok, ok_bind, pure_eq_ok]
-    unfold rdAt maxCountFor at h
+  · rw [if_pos hl]
+    constructor
+    · rintro ⟨rm, h⟩; cases h
+    · rintro ⟨h, _⟩; omega
+  · rw [if_neg hl]
+    simp (disch := omega) only [uN_ok, ok_bind, pure_eq_ok]
     by_cases hm : rd 4 (List.drop 0 bs) ≠ 0x592717
     · rw [if_pos hm]
-    · rw [if_neg hm]
-      have : toSigned 32 (rd 4 (List.drop 4 bs)) < 0 ∨
-          toSigned 32 (rd 4 (List.drop 4 bs)) > ((if bs.length = 524 then 64 else 62 : Nat) : Int) := by
-        rcases h with h | h | h | h
-        · exact absurd h hl
-        · exact absurd h hm
-        · exact Or.inl h
-        · exact Or.inr h
-      rw [if_pos this]
+      constructor
+      · rintro ⟨rm, h⟩; cases h
+      · rintro ⟨_, h, _⟩; exact absurd h hm
+    · rw [if_neg hm, relMapIsV16_eq]
+      simp only [ok_bind]
+      have hg := count_guard_iff bs.length (toSigned 32 (rd 4 (List.drop 4 bs))) (isV16Of bs (toSigned 32 (rd 4 (List.drop 4 bs))))
+        (by omega) (isV16Of_len _ _) (isV16Of_count _ _)
+      by_cases hc : toSigned 32 (rd 4 (List.drop 4 bs)) < 0 ∨
+          toSigned 32 (rd 4 (List.drop 4 bs)) > ((if isV16Of bs (toSigned 32 (rd 4 (List.drop 4 bs))) = true then 64 else 62 : Nat) : Int)
+      · rw [if_pos hc]
+        constructor
+        · rintro ⟨rm, h⟩; cases h
+        · rintro ⟨_, _, h⟩; exact absurd hc (hg.mpr h)
+      · rw [if_neg hc]
+        obtain ⟨r, hr⟩ := relMapLoop_total bs (toSigned 32 (rd 4 (List.drop 4 bs))).toNat 8
+        rw [hr]
+        simp only [ok_bind]
+        constructor
+        · intro _; exact ⟨by omega, by simpa using hm, hg.mp hc⟩
+        · intro _
+          cases hv : isV16Of bs (toSigned 32 (rd 4 (List.drop 4 bs))) with
+          | true =>
+            have := isV16Of_len _ _ hv
+            simp (disch := omega) only [if_true, uN_ok, ok_bind]
+            exact ⟨_, rfl⟩
+          | false =>
+            simp only [Bool.false_eq_true, if_false, ok_bind]
+            exact ⟨_, rfl⟩
 
-/-- and conversely: anything accepted has the magic, a count in 0..max and at most `count` mappings -/
+/-- the part of ParseRelMapFile after the layout is known: what an accepted result carries -/
+theorem parse_tail_fields (bs : Bytes) (n : Int) (mg mx : Nat) (crcM : M Nat) (rm : Model.RelMapFile)
+    (h : (if n < 0 ∨ n > (mx : Int) then (Except.ok none : M (Option Model.RelMapFile))
+          else (Model.relMapLoop bs n.toNat 8 >>= fun mappings => crcM >>= fun crc =>
+            (Except.ok (some { magic := mg, numMappings := n, mappings := mappings, crc := crc }) : M (Option Model.RelMapFile)))) =
+        Except.ok (some rm)) :
+    rm.magic = mg ∧ rm.numMappings = n ∧ rm.mappings.length ≤ n.toNat := by
+  split at h
+  · cases h
+  · cases hloop : Model.relMapLoop bs n.toNat 8 with
+    | error e => simp [hloop] at h
+    | ok ms =>
+      have hms := relMapLoop_length bs _ 8 ms hloop
+      simp only [hloop, ok_bind] at h
+      cases hcrc : crcM with
+      | error e => simp [hcrc] at h
+      | ok c =>
+        simp only [hcrc, ok_bind] at h
+        injection h with h; injection h with h; subst h
+        exact ⟨rfl, rfl, hms⟩
+
+/-- what an accepted map carries: the magic and the stored count -/
 theorem parseRelMapFile_accept (bs : Bytes) (rm : Model.RelMapFile) (h : Model.parseRelMapFile bs = .ok (some rm)) :
-    bs.length ≥ 512 ∧ rm.magic = 0x592717 ∧ rdAt 4 0 bs = 0x592717 ∧ 0 ≤ rm.numMappings ∧
-    rm.numMappings ≤ maxCountFor bs.length ∧ rm.numMappings = toSigned 32 (rdAt 4 4 bs) := by
+    bs.length ≥ 512 ∧ rm.magic = 0x592717 ∧ rdAt 4 0 bs = 0x592717 ∧ relmapCountOk bs.length rm.numMappings ∧
+    rm.numMappings = toSigned 32 (rdAt 4 4 bs) ∧ rm.mappings.length ≤ rm.numMappings.toNat := by
+  have hacc := (parseRelMapFile_accept_iff bs).mp ⟨rm, h⟩
+  obtain ⟨a1, a2, a3⟩ := hacc
   unfold Model.parseRelMapFile at h
-  by_cases hl : bs.length < 512
-  · simp [hl] at h
-  · simp (disch := omega) only [hl, if_false, uN_ok, ok_bind, pure_eq_ok] at h
-    have hge : bs.length ≥ 8 + (if bs.length = 524 then 64 else 62) * 8 + 4 := by split <;> omega
-    have hle : (if bs.length = 524 then 64 else 62 : Nat) ≤ 64 := by split <;> omega
-    unfold maxCountFor
-    generalize (if bs.length = 524 then 64 else 62 : Nat) = mx at h hge hle ⊢
-    split at h
-    · simp at h
-    · rename_i hm
-      split at h
-      · simp at h
-      · rename_i hc
-        cases hloop : Model.relMapLoop bs (toSigned 32 (rd 4 (List.drop 4 bs))).toNat 8 with
-        | error e => simp [hloop] at h
-        | ok ms =>
-          simp only [hloop, ok_bind] at h
-          injection h with h; injection h with h; subst h
-          refine ⟨by omega, ?_, ?_, ?_, ?_, rfl⟩
-          · simpa using hm
-          · simpa [rdAt] using hm
-          · simp only; omega
-          · simp only; omega
+  rw [if_neg (by omega)] at h
+  simp (disch := omega) only [uN_ok, ok_bind, pure_eq_ok] at h
+  unfold rdAt at a2 a3 ⊢
+  rw [if_neg (by simpa using a2), relMapIsV16_eq] at h
+  simp only [ok_bind] at h
+  have hfin := fun (mx : Nat) (crcM : M Nat) => parse_tail_fields bs (toSigned 32 (rd 4 (List.drop 4 bs))) (rd 4 (List.drop 0 bs)) mx crcM rm
+  cases hv : isV16Of bs (toSigned 32 (rd 4 (List.drop 4 bs))) with
+  | true =>
+    rw [hv] at h
+    simp only [if_true] at h
+    obtain ⟨e1, e2, e3⟩ := hfin 64 _ h
+    exact ⟨by omega, by rw [e1]; exact a2, a2, by rw [e2]; exact a3, e2, by rw [e2]; exact e3⟩
+  | false =>
+    rw [hv] at h
+    simp only [Bool.false_eq_true, if_false] at h
+    obtain ⟨e1, e2, e3⟩ := hfin 62 _ h
+    exact ⟨by omega, by rw [e1]; exact a2, a2, by rw [e2]; exact a3, e2, by rw [e2]; exact e3⟩
 
 theorem relMapGetFilenode_eq (ms : List (Nat × Nat)) (oid : Nat) :
     Model.relMapGetFilenode (ms.map toMapping) oid = filenodeOf ms oid := by
